@@ -20,7 +20,10 @@ def digests(prop: str, tier: str, start: int, count: int, verif_seed: int = 1):
     out = []
     for i in range(start, start + count):
         seed = orchestrator.run_seed(prop, tier, verif_seed, i)
-        case = E.gen_case(seed, prop, tier, **spec.get("gen_kw", {}))
+        if getattr(E, "INDEXED", False):
+            case = E.gen_case(seed, prop, tier, index=i, verif_seed=verif_seed)
+        else:
+            case = E.gen_case(seed, prop, tier, **spec.get("gen_kw", {}))
         res = E.run_case(case)
         out.append((i, res.digest[:16], res.violation.klass if res.violation else "-"))
     return out
